@@ -535,9 +535,10 @@ func getTypeName(ident ir.LocalIdent) string {
 	if ident.IsUnnamed() {
 		return strconv.FormatInt(ident.LocalID, 10)
 	}
-	if x, err := strconv.ParseInt(ident.LocalName, 10, 64); err == nil {
-		// Print LocalName with quotes if it is a number; e.g. %"42".
-		return fmt.Sprintf(`"%d"`, x)
+	if _, err := strconv.ParseUint(ident.LocalName, 10, 64); err == nil {
+		// Print LocalName with quotes if it is a number; e.g. %"42" (note, the
+		// digits are kept as they are: %"042" and %"42" are distinct names).
+		return `"` + ident.LocalName + `"`
 	}
 	return ident.LocalName
 }
